@@ -1,7 +1,7 @@
 (* Extraction of the executable model to OCaml.  Only ExtrOcamlBasic is used: bool, option, unit, list, prod,
    sumbool, sumor map to OCaml's; nat, positive, N, Z stay the extracted Coq datatypes. *)
 From Coq Require Import Extraction ExtrOcamlBasic.
-From DSG Require Import Base Constraint DesVar Dsg Sel Problem Metric Matrix Proc Coding ConnChoice Sup Timeout Identity Selector Cache Persist Neighborhood.
+From DSG Require Import Base Constraint DesVar Dsg Sel Problem Metric Matrix Proc Coding ConnChoice Sup Timeout Identity Selector Cache Persist Neighborhood Greedy.
 Extraction "dsgm_model.ml" Base.memN Base.memZ
   Constraint.valid_row Constraint.valid_idx_rows Constraint.idx_okb Constraint.removed_options
   Constraint.pre_removed Constraint.count_max
@@ -14,7 +14,7 @@ Extraction "dsgm_model.ml" Base.memN Base.memZ
   Coding.coding_verdict Coding.coding_ok
   ConnChoice.conn_sets ConnChoice.edges_valid ConnChoice.settings_for ConnChoice.combined
   Sup.resolve Sup.resolve_one
-  Timeout.allowed Timeout.run Timeout.nrun Timeout.nreach Timeout.nleaks Timeout.nreturned
+  Greedy.fast_decode Timeout.allowed Timeout.run Timeout.nrun Timeout.nreach Timeout.nleaks Timeout.nreturned
   Identity.same_graph
   Selector.select Selector.get_best Selector.equalize
   Cache.cache_key Cache.ckey_eqb
